@@ -98,6 +98,9 @@ def m_C01(tier):
             if tier == 'thorough':
                 for km in ('rawnf', 'rawtyped', 'strnf', 'picklenf'):
                     cfgs.append(C(mod, alg, ms, False, km, 'dict', fn='var', nargs=5, spellings=1))
+            # a partial re-binding a keyword-only default: p(1) really runs with k=7, p(1, k=3) with k=3
+            for km in (('default', 'raw') if tier == 'quick' else ('default', 'raw', 'str', 'picklenf', 'md5')):
+                cfgs.append(C(mod, alg, ms, False, km, 'dict', fn='pkw', nargs=3, spellings=1))
     cfgs += falsy_configs(tier)
     return cfgs
 
@@ -162,6 +165,23 @@ def m_C06(tier):
                 for backend, init in (('none', 'empty'), ('dict', 'empty'), ('dict', 'seeded_archive')):
                     cfgs.append(C(mod, alg, ms, False, 'default', backend, init,
                                   nargs=min(4, ms + 2) if tier == 'quick' else min(5, ms + 2), spellings=1))
+    cfgs += narrow_configs(tier)
+    return cfgs
+
+
+def narrow_configs(tier):
+    """several small alphabets explored deep instead of one large alphabet explored shallow: three or four keys,
+    one management operation, one macro event; depth 7-8 (bookkeeping that survives a management operation
+    only shows after several further insertions)"""
+    cfgs = []
+    mgmt = [('clearks',), ('clear',), ('dump',)] if tier == 'quick' else [('clearks',), ('clear',), ('dump',), ('raise', 0, 'Boom'), ('load',)]
+    for mod in MODULES:
+        for alg in BOUNDED:
+            for ms in ((2,) if tier == 'quick' else (2, 3)):
+                for m in mgmt:
+                    backend = 'dict' if m[0] in ('dump', 'load') else 'none'
+                    cfgs.append(C(mod, alg, ms, False, 'default', backend, nargs=ms + 2, spellings=0,
+                                  narrow=[list(m)], depth=7 if tier == 'quick' else 8, states=4000 if tier == 'quick' else 30000))
     return cfgs
 
 
@@ -302,6 +322,13 @@ def m_C20(tier):
 def ev_for(prop, cfg, tier):
     n = cfg.get('nargs', 3)
     sp = cfg.get('spellings', 2)
+    if cfg.get('narrow'):
+        ev = call_events(n, sp) + [tuple(m) for m in cfg['narrow']]
+        if cfg['alg'] == 'lfu':
+            ev += [('callx', 0, 3)]
+        if cfg['alg'] == 'lru' and prop == 'C06':
+            ev += [('callx', 0, 10 * cfg['maxsize'] - 1)]
+        return ev
     if prop == 'C06':
         # what the statement quantifies over: calls (+ clear / dump, which keep bookkeeping consistent)
         ev = call_events(n, sp) + [('clear',), ('dump',), ('clearks',)]
@@ -399,8 +426,8 @@ def run(prop, tier, seed):
     tasks = []
     for cfg in cfgs:
         persistent = cfg['backend'].split(':')[-1] in cachemc.PERSISTENT
-        d = min(depth, 4 if tier == 'quick' else 5) if persistent else depth
-        st = min(states, 400 if tier == 'quick' else 2500) if persistent else states
+        d = min(depth, 4 if tier == 'quick' else 5) if persistent else cfg.get('depth', depth)
+        st = min(states, 400 if tier == 'quick' else 2500) if persistent else cfg.get('states', states)
         tasks.append((prop, cfg, 'bfs', d, st, None, tier))
     if tier == 'thorough' and dfs:
         for cfg in cfgs:
